@@ -293,11 +293,22 @@ def from_shapes():
         ("comma_join_derived", lambda n: ((ir.FromGroup(C), ir.FromGroup(A, (ir.Join("JOIN", ir.Derived(_sub(8), "d2", True), on("ta", "d2")),))), "ta", ())),
         ("bracketed_derived_join", lambda n: ((ir.FromGroup(ir.Derived(_sub(7), "d1", True), (ir.Join("JOIN", ir.Derived(_sub(8), "d2", True), on("d1", "d2")),)),), "d1", ())),
     ]
+    # tables that share their bare name (different schemas) and tables that share an alias with a table of another query block
+    shapes += [
+        ("same_barename_two_schemas_join", lambda n: ((ir.FromGroup(ir.T("s1", "ta"), (ir.Join("JOIN", ir.T("s2", "ta"), on("s1.ta", "s2.ta")),)),), "s1.ta", ())),
+        ("same_barename_two_schemas_comma", lambda n: ((ir.FromGroup(ir.T("s1", "ta")), ir.FromGroup(ir.T("s2", "ta")), ir.FromGroup(ir.T(None, "ta", "a0", True))), "s1.ta", ())),
+        ("same_alias_as_subquery_table", lambda n: ((ir.FromGroup(ir.T(None, "ta", "x", True), (ir.Join("JOIN", ir.Derived(
+            ir.Select((ir.Item(ir.Col("x", "c1")), ir.Item(ir.Col("x", "k"))), (ir.FromGroup(ir.T("s1", "tb", "x", True)),)), "d2", True), on("x", "d2")),)),), "x", ())),
+    ]
     for jk in JOIN_KINDS:
         cond = None if jk == "CROSS JOIN" else on("ta", "tb")
         shapes.append(("join:" + jk, lambda n, jk=jk, cond=cond: ((ir.FromGroup(A, (ir.Join(jk, B, cond),)),), "ta", ())))
     shapes.append(("join_using", lambda n: ((ir.FromGroup(A, (ir.Join("JOIN", B, ("using", ("k",))),)),), "ta", ())))
     return shapes
+
+
+def _al(q):
+    return q if q.isidentifier() else "x"
 
 
 def subquery_positions():
@@ -323,6 +334,10 @@ def subquery_positions():
                                                                                 (ir.Cmp(c(q), ">", ir.Lit("5")), ir.ScalarSub(S(3, n)))), None), "cs1"),)}),
         ("function_arg_subquery", lambda q, n: {"extra_items": (ir.Item(ir.Func("coalesce", (ir.ScalarSub(S(1, n)), ir.Lit("0"))), "fn1"),)}),
         ("union_branches", lambda q, n: {"setop": [S(1, n), S(2, n)]}),
+        # the branches reuse the first branch's qualifier as the alias of OTHER tables (an alias is local to its query block)
+        ("union_branches_same_alias", lambda q, n: {"setop": [ir.Select((ir.Item(ir.Col(_al(q), "c1")),), (ir.FromGroup(ir.T(None, "tu1", _al(q), True)),)),
+                                                               ir.Select((ir.Item(ir.Col(_al(q), "c1")),), (ir.FromGroup(ir.T("s2", "tu2", _al(q), False)),))]}),
+        ("where_in_same_alias", lambda q, n: {"where": ir.InSub(c(q), ir.Select((ir.Item(ir.Col(_al(q), "c1")),), (ir.FromGroup(ir.T("s1", "tw1", _al(q), True)),)))}),
         ("scalar_subquery_select_item", lambda q, n: {"extra_items": (ir.Item(ir.ScalarSub(S(1, n)), "sq1"),)}),
         ("having_subquery", lambda q, n: {"group_by": (c(q),), "having": ir.CmpSub(ir.Func("count", (ir.Lit("1"),)), ">", S(1, n))}),
     ]
@@ -415,6 +430,13 @@ def dialect_specific_cases():
     out.append(("duckdb", "CREATE TABLE tgt AS FROM ta", ["<default>.ta"], ["<default>.tgt"], ["kind:from_first"]))
     out.append(("bigquery", "INSERT tgt SELECT c FROM ta JOIN s1.tb USING (k)", ["<default>.ta", "s1.tb"], ["<default>.tgt"], ["kind:insert_without_into"]))
     out.append(("sparksql", "CREATE TABLE tgt USING parquet LOCATION '/x' AS SELECT * FROM ta, tb", ["<default>.ta", "<default>.tb"], ["<default>.tgt"], ["kind:ctas_using"]))
+    # quoted multi-part names (lower-case: case folding of quoted names is C16's K-quoted-case): a quoted part names the same table as the bare part
+    out.append(("tsql", "INSERT INTO [db].[dbo].[tgt] SELECT a.c1 FROM [db].[dbo].[a] AS a JOIN [s1].[b] ON a.k = [s1].[b].k", ["db.dbo.a", "s1.b"], ["db.dbo.tgt"], ["kind:quoted_multipart"]))
+    out.append(("ansi", 'INSERT INTO "db"."sch"."tgt" SELECT c1 FROM "db"."sch"."t" JOIN db2."sch".u USING (k)', ["db.sch.t", "db2.sch.u"], ["db.sch.tgt"], ["kind:quoted_multipart"]))
+    out.append(("mysql", "INSERT INTO `db`.`tgt` SELECT c1 FROM `db`.`t`, `u`", ["<default>.u", "db.t"], ["db.tgt"], ["kind:quoted_multipart"]))
+    out.append(("bigquery", "INSERT INTO `proj.ds.tgt` SELECT c1 FROM `proj.ds.t` JOIN proj.ds.u USING (k)", ["proj.ds.t", "proj.ds.u"], ["proj.ds.tgt"], ["kind:quoted_multipart"]))
+    out.append(("snowflake", 'CREATE TABLE db.sch.tgt AS SELECT c1 FROM "db"."sch"."t", db."sch".u', ["db.sch.t", "db.sch.u"], ["db.sch.tgt"], ["kind:quoted_multipart"]))
+    out.append(("postgres", 'MERGE INTO "db"."sch"."tgt" t USING "db"."sch"."src" s ON t.k = s.k WHEN MATCHED THEN UPDATE SET c1 = s.c1', ["db.sch.src"], ["db.sch.tgt"], ["kind:quoted_multipart"]))
     # directory targets over every FROM shape
     for fname, fb in from_shapes():
         groups, qual, ctes = fb(0)
@@ -528,7 +550,7 @@ def _skeleton_worker(payload):
     for idx, (stmt, feats) in enumerate(skeletons(nest_levels)):
         if idx % nshards != shard:
             continue
-        if ctx.quick and len(feats) > 2 and (idx // nshards + ctx.seed) % 5:  # quick: a seeded fifth of the product (all extra kinds)
+        if ctx.quick and len(feats) > 2 and (idx // nshards + ctx.seed) % 6:  # quick: a seeded sixth of the product (all extra kinds)
             continue
         if {"scalar_subquery_select_item", "having_subquery"} & set(feats) and not any(f in ("from:single", "from:comma2") for f in feats):
             continue  # finding probes: two FROM shapes are enough
